@@ -261,6 +261,12 @@ class TriggerHandlerDecorator(Decorator, ABC):
                 f"{self.dm.func_name} defined in {self.dm.ast_ctx.get_global_ctx_name()}: "
                 f"needs at least one trigger decorator (ie: {', '.join(sorted(trig_decorators_reqd))})"
             )
+        if len(self.dm.get_decorators(type(self))) > 1:
+            # documented: only a single @state_active / @time_active per function (same wording as the legacy subsystem)
+            raise SyntaxError(
+                f"function '{self.dm.func_name}' defined in {self.dm.ast_ctx.get_global_ctx_name()}: "
+                f"decorator @{self.name} can only be used once"
+            )
 
     @abstractmethod
     async def handle_dispatch(self, data: DispatchData) -> bool | None:
